@@ -77,7 +77,7 @@ def enumerate_cases(tier):
       k += 1
       yield {'from': a, 'to': b, 'zf': (za + g) % 3 if a != b else za, 'zt': (zb + 2 * g) % 3 if a != b else zb,
              'cells': GALLERIES[g], 'sib': [[0, g, 'a'], [7, 1, '12']], 'via': k % 3, 'summary': 0, 'removed': [],
-             'twoway': False, 'wopt': False, 'enum': True}
+             'twoway': False, 'wopt': False, 'w0': bool(k % 2), 'enum': True}
 
 
 def strategy(tier):
@@ -92,6 +92,7 @@ def strategy(tier):
     'removed': st.lists(st.integers(0, 7), max_size=2),
     'twoway': st.sampled_from([False, False, False, True]),
     'wopt': st.sampled_from([False, False, True]),
+    'w0': st.booleans(),
   })
 
 
@@ -140,12 +141,22 @@ def enc(v):
 
 def build(case, out):
   d = Doc()
-  t1 = type_name(case.get('from', 0), case.get('zf', 0))
-  t2 = type_name(case.get('to', 1), case.get('zt', 0))
+  fi, ti = int(case.get('from', 0)) % len(BASES), int(case.get('to', 1)) % len(BASES)
+  t1 = type_name(fi, case.get('zf', 0))
+  t2 = type_name(ti, case.get('zt', 0))
+  if case.get('twoway'):
+    # two-way references exist only between Ref/RefList columns; mostly switch to the compatible sibling type
+    fi = BASES.index('Ref') if fi % 2 == 0 else BASES.index('RefList')
+    t1 = type_name(fi)
+    if ti % 4:
+      t2 = type_name(BASES.index('RefList') if fi == BASES.index('Ref') else BASES.index('Ref'))
+  if t1 == t2:
+    t2 = type_name(ti + 1, case.get('zt', 0))
   r = d.apply([['AddTable', 'Other', [{'id': 'A', 'type': 'Text', 'isFormula': False},
                                       {'id': 'N', 'type': 'Int', 'isFormula': False}]],
                ['BulkAddRecord', 'Other', [None] * 3, {'A': ['a', 'b', 'c'], 'N': [1, 2, 3]}],
-               ['AddTable', 'Src', [{'id': 'X', 'type': t1, 'isFormula': False},
+               ['AddTable', 'Src', [{'id': 'X', 'type': t1, 'isFormula': False,
+                                     'widgetOptions': '{"alignment":"right"}' if case.get('w0') else ''},
                                     {'id': 'S', 'type': 'Text', 'isFormula': False},
                                     {'id': 'K', 'type': 'Int', 'isFormula': False},
                                     {'id': 'R', 'type': 'Ref:Other', 'isFormula': False},
@@ -229,6 +240,8 @@ def run_case(case):
   out.cls('pair:' + pair, 'via:' + ua[0] + (':_grist_Tables_column' if via else ''))
   if wopt:
     out.cls('request:with-widgetOptions')
+  if case.get('w0'):
+    out.cls('doc:X-has-widgetOptions')
   if not r.ok:
     if twoway and not (b1 in ('Ref', 'RefList') and b2 in ('Ref', 'RefList')):
       out.cls('rejected:two-way-incompatible-type(not judged)')
@@ -286,6 +299,11 @@ def run_case(case):
     exempt_cells.add((tmeta[rc['parentId']]['tableId'], rc['colId']))
     if rc['displayCol'] and rc['displayCol'] in meta_before:
       exempt_cells.add((tmeta[rc['parentId']]['tableId'], meta_before[rc['displayCol']]['colId']))
+  for cid, c in meta_after.items():
+    # summary tables of Src get a same-named formula column SUM($group.X) when X is numeric: it reads X
+    if c['colId'] == 'X' and c['isFormula'] and tmeta[c['parentId']]['summarySourceTable']:
+      exempt_cells.add((tmeta[c['parentId']]['tableId'], 'X'))
+      out.cls('doc:summary-with-SUM(X)-column')
   structural, cells = eqv.cells_diff(before, after)
   structural = [s for s in structural if s[0] not in exempt_tables]
   if structural:
